@@ -103,7 +103,7 @@ def parse_place(s, i=0):
         else:
             p, j = parse_place(s, i + 1); local, pr = p.local, list(p.proj)
             if s.startswith(' as ', j):
-                m = re.match(r' as (\w+)\)', s[j:])
+                m = re.match(r' as ([\w#]+)\)', s[j:])
                 if not m: raise MirParseError('place downcast: ' + s[i:])
                 pr.append(('downcast', m.group(1))); j += len(m.group(0))
             else:
@@ -473,7 +473,7 @@ class Mir:
         if self.enums is not None: return self.enums
         enums = {'Option': ['None', 'Some'], 'Result': ['Ok', 'Err'], 'ControlFlow': ['Continue', 'Break'],
                  'Ordering': ['Less', 'Equal', 'Greater'], 'Bound': ['Included', 'Excluded', 'Unbounded'],
-                 'TryRecvError': ['Empty', 'Disconnected'], 'RecvTimeoutError': ['Timeout', 'Disconnected'], 'Cow': ['Borrowed', 'Owned']}
+                 'TryRecvError': ['Empty', 'Disconnected'], 'Poll': ['Ready', 'Pending'], 'RecvTimeoutError': ['Timeout', 'Disconnected'], 'Cow': ['Borrowed', 'Owned']}
         for root, dirs, files in os.walk(self.srcroot):
             if '/target' in root or '/.git' in root: continue
             for fnm in files:
@@ -548,6 +548,16 @@ class Mir:
             if len({norm(h) for h in hits}) == 1: hits = hits[:1]
         if len(hits) != 1: raise KeyError('closure %s (parent %s): %d hits' % (key, parent, len(hits)))
         return self.fns[hits[0]].parse()
+
+def _coroutine_of(self, cty):
+    """`{coroutine@SPAN (#0)}` (the value built where an async block is written) -> its poll function, whose first argument is
+    Pin<&mut {async block@SPAN}> / {async fn body ...}"""
+    mm = re.match(r'^\{coroutine@([^{}]*?)( \(#\d+\))?\}$', cty.strip())
+    if not mm: raise KeyError('not a coroutine type: ' + cty)
+    span = mm.group(1); hits = [n for n, f in self.fns.items() if f.args and ('{async block@%s}' % span) in f.args[0][1] and f.args[0][1].startswith('Pin<&mut ')]
+    if len(hits) != 1: raise KeyError('coroutine %s: %d poll functions' % (cty, len(hits)))
+    return self.fns[hits[0]].parse()
+Mir.coroutine_of = _coroutine_of
 
 def source_hash(repo):
     h = hashlib.sha256()
